@@ -95,10 +95,8 @@ CLASSES = {"bundled-base-class": "F14", "passthrough-undeclared-base-class": "F1
 
 def check(run: Run, ctx) -> None:
     known = findings.Known(run, PROP)
-    try:
-        g.run_corr(run, ctx, "vf.corr.c06", "status tables")
-    except ModuleNotFoundError:
-        run.notes.append("vf.corr.c06 not present yet")
+    g.run_corr(run, ctx, "vf.corr.c06", "status tables")
+    g.run_corr(run, ctx, "vf.corr.gencode", "GenCode (handle on generated clients, both transports)", quick=0.4, thorough=3.0)
     run.cov["rule"] = (run.cov.get("rule") or "") + ("[oracle] random documents -> generated client -> every operation called with a fake server answering declared error "
                        "statuses plus a seeded sample (quick) / all (thorough) of 25 representative statuses in 100..599, through the bundled transport and a pass-through "
                        "transport; distinct by (document, operation, status, transport); non-trivial = status outside 2xx actually delivered to the client")
